@@ -163,3 +163,8 @@ def native(tier, seed):
     from pyvc import nativerun
 
     return nativerun.run("contracts.native_c10:sweep", tier, seed)
+
+
+from . import foundation  # noqa: E402
+
+foundation.register("C10")
